@@ -445,10 +445,19 @@ def r_output(ctx, model):
         intr2[f"{WR}:ResultsWriter.write"] = lambda ev, a, k: seen.append((a[0].attrs.get("base"), a[1]))
         ev = Ev(model, seeds, intr2, ctx=ctx)
         base = vol if nm == "tv" else prs
-        ev.call_def(wf, model.mods[owner_.split(":")[0]], f"{owner_}.write_variables", [base, Tup(["a", "b", DictV({"keyword": "c"})], "list")], {})
-        ok = len(seen) == 3 and all(b is base for b, _ in seen) and [c for _, c in seen][:2] == ["a", "b"]
+        # three entries with three different destinations (the same keyword asked for again under another file name and unit is a different file)
+        again = DictV({"keyword": "p", "unit": "kbar", "fname": "p_kbar.txt"})
+        ev.call_def(wf, model.mods[owner_.split(":")[0]], f"{owner_}.write_variables", [base, Tup(["p", "bm_V", again], "list")], {})
+        def norm_entry(c):
+            # a bare keyword and {keyword: <it>} are the same request
+            if isinstance(c, DictV):
+                items = tuple(sorted((str(kk), str(vv)) for kk, vv in c.d.items()))
+                return items[0][1] if len(items) == 1 and items[0][0] == "keyword" else items
+            return c
+        ok = len(seen) == 3 and all(b is base for b, _ in seen) and [norm_entry(c) for _, c in seen] == ["p", "bm_V", norm_entry(again)]
         ctx.check(ok, f"{nm}.write_variables writes every entry through a writer bound to this interface", model.where(f"{owner_}.write_variables", wf),
-                  expected="ResultsWriter(self).write(c) for each c", found=f"{len(seen)} writes", explanation="an output entry is skipped or written through another interface",
+                  expected="ResultsWriter(self).write(c) for each of: 'p', 'bm_V', {keyword: p, unit: kbar, fname: p_kbar.txt}", found=f"{len(seen)} writes: {[norm_entry(c) for _, c in seen]}"[:300],
+                  explanation="an output entry is skipped (an entry that writes a file of its own is taken for a repetition of another), reordered or written through another interface",
                   key=f"write_variables.{nm}")
     # installed writers drop exactly four guard rows
     for fn in ("save_x_tp", "save_x_tv"):
